@@ -1,29 +1,17 @@
 import Skc.Drv.Json
-import Skc.Model.Rank
-/-! Dispatch of driver operations to the executable model. -/
+import Skc.Drv.OpsC03
+/-! Dispatch of driver operations to the executable model: one handler per property file. -/
 open Lean
 namespace Skc.Drv
 
-def opRank (j : Json) : Except String Json := do
-  let s ← listOf asRat (← field j "scores")
-  let rev ← asBool (fieldD j "reverse" (.bool false))
-  pure (obj [("ranks", jList jNat (rankValues rev s))])
-
-def opValidRank (j : Json) : Except String Json := do
-  let v ← listOf asInt (← field j "values")
-  pure (obj [("ok", jBool (validRank v))])
-
-def opKernel (j : Json) : Except String Json := do
-  let o ← matOf asBool (← field j "outrank")
-  let n ← asNat (← field j "n")
-  pure (obj [("kernel", jList jBool (kernelOf o n))])
+def handlers : List (String → Json → Option (Except String Json)) :=
+  [ handleC03
+  ]
 
 def handle (j : Json) : Except String Json := do
   let op ← asStr (← field j "op")
-  match op with
-  | "rank" => opRank j
-  | "validrank" => opValidRank j
-  | "kernel" => opKernel j
-  | _ => .error s!"bad-op {op}"
+  match handlers.findSome? (fun h => h op j) with
+  | some r => r
+  | none => .error s!"bad-op {op}"
 
 end Skc.Drv
